@@ -43,6 +43,15 @@ func witnesses() map[string][]rh.Op {
 			adv(2, 3, 1, "10.1.2.0/24", 7),
 			look4("10.1.2.3"), look4("10.200.0.1"),
 		},
+		// three origins, the best one is withdrawn / removed: the survivors stay in metric order
+		"withdraw-best-of-three": {
+			adv(1, 1, 1, "10.0.0.0/8", 1), adv(2, 2, 1, "10.0.0.0/8", 2), adv(3, 3, 1, "10.0.0.0/8", 3),
+			{Code: rh.OpWd, Origin: 1, Ents: []rh.Ent{{Net: rh.MustNet("10.0.0.0/8")}}}, look4("10.9.9.9"),
+			{Code: rh.OpAddLocal, Net: rh.MustNet("10.1.0.0/16"), Metric: 0}, adv(2, 2, 1, "10.1.0.0/16", 2), adv(3, 3, 1, "10.1.0.0/16", 6),
+			{Code: rh.OpRmLocal, Net: rh.MustNet("10.1.0.0/16")}, look4("10.1.2.3"),
+			adv(1, 1, 2, "10.2.0.0/16", 0), adv(2, 2, 1, "10.2.0.0/16", 2), adv(3, 3, 1, "10.2.0.0/16", 6), adv(1, 4, 1, "10.2.0.0/16", 8),
+			{Code: rh.OpTRm, Origin: 2, Net: rh.MustNet("10.2.0.0/16")}, look4("10.2.2.3"),
+		},
 		// withdraw with host bits set must remove the canonical entry
 		"host-bits-withdraw": {
 			adv(1, 1, 1, "10.0.0.0/8", 1),
@@ -67,8 +76,14 @@ func TestVerif(t *testing.T) {
 	}
 	if c.Replay != "" {
 		var h rh.History
-		if err := c.ReadReplay(&h); err != nil {
-			t.Fatal(err)
+		if err := c.ReadReplay(&h); err != nil || len(h.Ops) == 0 {
+			// a failure of the concurrent phase has no operation history: re-run the phase
+			for _, f := range rh.ConcurrentSameSlot(60, 50000) {
+				c.Fail(f.Sig, f.Detail, "concurrent same-slot phase")
+				fmt.Printf("replay: %s: %s\n", f.Sig, f.Detail)
+			}
+			rh.WriteCases(c, nil)
+			return
 		}
 		o := rh.RunFixed(t, h.Name, h.Profile, h.Pools, h.Ops, mon, 8)
 		add(o)
@@ -76,7 +91,7 @@ func TestVerif(t *testing.T) {
 			fmt.Printf("replay: %s: %s\n", f.Sig, f.Detail)
 		}
 	} else {
-		names := []string{"host-bits-tie", "v4mapped-beats-longer", "v4mapped-same-bucket", "host-bits-withdraw"}
+		names := []string{"host-bits-tie", "v4mapped-beats-longer", "v4mapped-same-bucket", "host-bits-withdraw", "withdraw-best-of-three"}
 		w := witnesses()
 		for _, n := range names {
 			add(rh.RunFixed(t, "witness:"+n, "cidr", rh.Pools{}, append(w[n], rh.Op{Code: rh.OpLookupAll}), mon, 64))
@@ -91,6 +106,13 @@ func TestVerif(t *testing.T) {
 			}
 			add(rh.RunGenerated(t, fmt.Sprintf("gen-%d", i), g, mon, nm, 2))
 		}
+	}
+	if c.Replay == "" {
+		// concurrent phase (both tiers): same key and origin added from several goroutines at once
+		for _, f := range rh.ConcurrentSameSlot(c.N(30, 120), c.N(20000, 50000)) {
+			c.Fail(f.Sig, f.Detail, "concurrent same-slot phase: 4 goroutines advertise sequences 1..4 of one origin for one key while RemoveRoutesFromPeer scans the table")
+		}
+		c.Count("concurrent-same-slot-phase")
 	}
 	if c.Thorough() && c.Replay == "" {
 		for _, f := range rh.Stress(c.Rand.Fork(), 8, 3000) {
